@@ -11,9 +11,11 @@ expression."""
 import json
 import os
 import random
+import re
 import sys
 
 from . import common as C
+from . import ruleeval as RE
 from . import exprs as X
 from . import speechtexts as ST
 from . import c05
@@ -173,10 +175,37 @@ def run(res):
                 "every operand position x language x style x verbosity (quick: ClearSpeak/Verbose for every language + 8 sampled); "
                 "non-trivial = expressions with more than two literals")
     generate(res)
+    rng = random.Random(res.seed * 911 + 4)
+    tie_bodies = list(X.FIXED) + [X.gen(rng, 3, kinds=X.MORE_KINDS) for _ in range(10 if res.tier == "quick" else 120)]
+    sizes = RE.gen_rule_sets()
+    stats, missing, ev_items, m_items, eval_obs, match_obs, roots = RE.generate(res, tie_bodies, max_eval=3000 if res.tier == "quick" else 20000,
+                                                                                max_match=3000 if res.tier == "quick" else 20000)
+    res.extra["rule_engine_tie"] = stats
+    res.extra["shipped_rule_sets"] = sizes
+    for k in ev_items:
+        res.add_case(("rule-eval",) + k, nontrivial=(20 in k[2] or 8 in k[2]))
+    for k in m_items:
+        res.add_case(("rule-match",) + k, nontrivial=len(k[2]) > 1)
+    if missing:
+        res.violation("the engine applied a rule / Unicode replacement that the files as the translator loads them do not define: %r" % (missing[0],),
+                      {"broken": "rule tie", "missing": missing[:5]}, found_input=False)
 
     def on_broken(log):
+        if "RuleEvalTie" in log or "RuleSetsP" in log:
+            # the cases that disagree, by index (printed by the tie file)
+            m = re.findall(r"=\s*\[([^\]]*)\]\s*:\s*list N", log)
+            det = []
+            for which, idxs in zip(("eval", "match"), m[-2:] if len(m) >= 2 else []):
+                for i in [int(x.replace("%N", "")) for x in idxs.replace("\n", " ").split(";") if x.strip()][:4]:
+                    if which == "eval" and i < len(ev_items):
+                        key, cfg = eval_obs[ev_items[i]]
+                        det.append({"tie": "eval", "application": list(key), "config": cfg, "outcomes": list(ev_items[i][1]), "engine_events": list(ev_items[i][2])})
+                    if which == "match" and i < len(m_items):
+                        r_, tag, ids, hit = m_items[i]
+                        det.append({"tie": "match", "rule_set": os.path.relpath(r_, C.RULES), "tag": tag, "tried_ids": list(ids), "hit": hit, "config": match_obs[m_items[i]]})
+            res.extra["rule_engine_disagreements"] = det
         return oracle(res) > 0
-    proved = C.check_proofs(res, "C04", ["Props/C04.vo", "Tie/C04Tie.vo"], "Props/C04.v", search=on_broken)
+    proved = C.check_proofs(res, "C04", ["Props/C04.vo", "Tie/C04Tie.vo", "Tie/RuleEvalTie.vo"], "Props/C04.v", search=on_broken)
     if proved:
         oracle(res)
     res.trusted += ["harness op h_yaml_texts (yaml-rust) for the optional words of the rule files",
